@@ -38,7 +38,12 @@ fn cardinal_or_ordinal(n: u64, c: &mut dyn Chooser, ord: Option<&str>) -> Vec<St
     for (i, sg, pl) in [(3usize, "milliarde", "milliarden"), (2, "million", "millionen")] {
         // "eine Million" is the dictionary form; the library documents `eine` as not a number word
         // (known finding de-eine-million), so the speller's choice 0 is the accepted "ein Million"
-        if g[i] == 1 { out.push(s(if ord.is_none() && c.pick(4) == 3 { "eine" } else { "ein" })); out.push(s(sg)); }
+        if g[i] == 1 {
+            // "ein Million" / "eine Million" / bare "Million" (implicit one: "der millionste Besucher")
+            let bare = out.is_empty() && c.pick(6) == 5;
+            if !bare { out.push(s(if ord.is_none() && c.pick(4) == 3 { "eine" } else { "ein" })); }
+            out.push(s(sg));
+        }
         else if g[i] > 1 { let mut m = vec![]; group(g[i], c, false, &mut m); out.extend(join(m, match style { 0 | 1 => 0, 2 => 2, _ => 3 })); out.push(s(pl)); }
     }
     let mut t = vec![];
